@@ -642,26 +642,30 @@ fn build_debug_expr(
             Fields::Named(_) => true,
             Fields::Unnamed(_) | Fields::Unit => false,
         };
+        // Fully qualified calls: with method-call syntax a trait of the use site with `&self` methods named
+        // `field` / `finish` would be picked before the builders' own `&mut self` methods.
         let mut expr = TokenStream::new();
-        let debug_x = match is_named {
-            true => quote!(debug_struct),
-            false => quote!(debug_tuple),
+        let (builder, debug_x) = match is_named {
+            true => (quote!(::core::fmt::DebugStruct), quote!(debug_struct)),
+            false => (quote!(::core::fmt::DebugTuple), quote!(debug_tuple)),
         };
         let ident = ident.unraw();
-        expr.extend(quote!(__f.#debug_x(::core::stringify!(#ident))));
+        expr.extend(quote!(let mut __b = ::core::fmt::Formatter::#debug_x(__f, ::core::stringify!(#ident));));
         for field in fields {
             if !field.hattrs.is_debug_ignore() {
                 let e = to_expr(field);
                 let member = field.field.ident.as_ref().map(|i| i.unraw());
                 expr.extend(match is_named {
-                    true => quote! (.field(::core::stringify!(#member), &__Ref(#e))),
-                    false => quote! (.field(&__Ref(#e))),
+                    true => {
+                        quote! (#builder::field(&mut __b, ::core::stringify!(#member), &__Ref(#e));)
+                    }
+                    false => quote! (#builder::field(&mut __b, &__Ref(#e));),
                 });
                 field.push_bounds_to(use_bounds, kind, wcb);
             }
         }
-        expr.extend(quote!(.finish()));
-        expr
+        expr.extend(quote!(#builder::finish(&mut __b)));
+        quote!({ #expr })
     };
     Ok(expr)
 }
